@@ -38,21 +38,21 @@ SPEC = {
              "1 s flush tick), or no signal and a 150-1200 ms run. Non-trivial = (a) >= 2 reporters or queue < reports, (a') every sweep, (b) >= 2 reports "
              "due before the end instant and (>= 2 instances or queue < reports), (c) c0 >= 100; distinct = hash of the case."),
     "floors": {
-        "TestPhoutHistory/reporters_ge_2": 0.5, "TestPhoutHistory/queue_lt_reports": 0.4, "TestPhoutHistory/ids_on": 0.3,
+        "TestPhoutHistory/reporters_ge_2": 0.5, "TestPhoutHistory/queue_lt_reports": 0.4, "TestPhoutHistory/ids_on": 0.22,
         "TestPhoutHistory/ids_off": 0.3, "TestPhoutHistory/negative_field": 0.5, "TestPhoutHistory/field_beyond_2^32": 0.5,
         "TestPhoutHistory/tag_special_chars": 0.5, "TestPhoutHistory/several_writes": 0.1, "TestPhoutHistory/duplicate_samples": 0.3,
         "TestPhoutHistory/report_before_run": 0.2,
         "TestEncoderHistory/drops": 0.3, "TestEncoderHistory/no_drops": 0.15, "TestEncoderHistory/queue_1": 0.2,
         "TestEncoderHistory/kind_jsonlines": 0.3, "TestEncoderHistory/kind_encoder": 0.1, "TestEncoderHistory/kind_closer": 0.1,
         "TestEncoderHistory/reporters_ge_2": 0.5, "TestEncoderHistory/several_writes": 0.1, "TestEncoderHistory/escaped_newline": 0.2,
-        "TestEncoderBoundary/crossed_4k_multiple": 0.9, "TestEncoderBoundary/output_exact_4k_multiple": 0.25,
-        "TestEncoderBoundary/final_flush_only": 0.5, "TestEncoderBoundary/flush_never": 0.2, "TestEncoderBoundary/kind_jsonlines": 0.3,
+        "TestEncoderBoundary/crossed_4k_multiple": 0.5, "TestEncoderBoundary/output_exact_4k_multiple": 0.25,
+        "TestEncoderBoundary/final_flush_only": 0.33, "TestEncoderBoundary/flush_never": 0.2, "TestEncoderBoundary/kind_jsonlines": 0.3,
         "TestEncoderBoundary/kind_encoder": 0.08, "TestEncoderBoundary/kind_closer": 0.1, "TestEncoderBoundary/buffer_default": 0.2,
-        "TestEncoderBoundary/buffer_above_4k": 0.2, "TestEncoderBoundary/buffer_4k_minimum": 0.1, "TestEncoderBoundary/fills_default_buffer": 0.04,
-        "TestEncoderBoundary/beyond_first_period": 0.3, "TestEncoderBoundary/no_drops_at_any_count": 0.9,
-        "TestEngineLevel/gradual_startup": 0.3, "TestEngineLevel/instances_beyond_once": 0.15,
-        "TestEngineLevel/out_of_ammo_while_starting": 0.08, "TestEngineLevel/report_after_out_of_ammo_while_starting": 0.04,
-        "TestEngineLevel/ended_by_itself": 0.3, "TestEngineLevel/cancel_in_progress": 0.15, "TestEngineLevel/provider_fault_reached": 0.08,
+        "TestEncoderBoundary/buffer_above_4k": 0.16, "TestEncoderBoundary/buffer_4k_minimum": 0.078, "TestEncoderBoundary/fills_default_buffer": 0.04,
+        "TestEncoderBoundary/beyond_first_period": 0.3, "TestEncoderBoundary/no_drops_at_any_count": 0.5,
+        "TestEngineLevel/gradual_startup": 0.2, "TestEngineLevel/instances_beyond_once": 0.15,
+        "TestEngineLevel/out_of_ammo_while_starting": 0.048, "TestEngineLevel/report_after_out_of_ammo_while_starting": 0.032,
+        "TestEngineLevel/ended_by_itself": 0.3, "TestEngineLevel/cancel_in_progress": 0.12, "TestEngineLevel/provider_fault_reached": 0.08,
         "TestEngineLevel/reports_after_end_instant": 0.1, "TestEngineLevel/queue_le_2": 0.15, "TestEngineLevel/out_of_ammo_end": 0.1,
     },
     "manifest": {
